@@ -17,6 +17,7 @@ summaries').  compare_exchange forks the path into the success and the failure o
 
 Nothing is executed: values are symbols and expression trees.
 """
+import re
 from facts import AnalysisBroken
 
 M64 = (1 << 64) - 1
@@ -668,7 +669,34 @@ class Sim:
                 self.writes.append(p)
                 if not v.get('ref'):
                     self.materialise_functor(p, val)
+                    self.materialise_own(p, val, n)
         return None
+
+    def materialise_own(self, p, val, n):
+        """a local object of the class whose member function is analysed (`Guard tmp{std::move(rhs)}` of the move-and-swap
+        idiom): its constructor runs on the variable's storage, and its destructor when the variable goes out of scope"""
+        if not (isinstance(val, tuple) and val and val[0] == 'obj') or self.depth > 2:
+            return
+        rec = self.fn.get('record')     # the function under analysis (not an inlined callee)
+        if not rec or ('functor_at', p) in self.store:
+            return
+        short = rec.split('::')[-1]
+        if not (val[1] == rec or str(val[1]).endswith('::' + short) or val[1] == short):
+            return
+        ctor = self.facts.functions.get(val[2])
+        if ctor is None or not ctor.get('blocks') or ctor.get('record') != rec or len(ctor['params']) != len(val[3]):
+            return
+        n0 = len(self.path.events)
+        self.inline_call(ctor, list(val[3]), n, this_ptr=('addr', p))
+        self.mark_local(n0, p)
+        self.store[('localobj', p)] = rec
+
+    def mark_local(self, n0, p):
+        # member initialisations of a local object are not initialisations of *this
+        for ev_ in self.path.events[n0:]:
+            ev_['on_local'] = p[2]
+            if ev_['kind'] == 'init':
+                ev_['kind'] = 'init_local'
 
     def mutated_local(self, opath):
         """a non-const member function was called on a local object whose value is opaque (an iterator, a container ...):
@@ -730,6 +758,8 @@ class Sim:
             if ctor is not None and len(ctor['params']) == len(val[3]) and ctor.get('blocks'):
                 self._functor_via_ctor(op, ctor, val[3], ptr)
                 self.store[('functor_at', p)] = op['key']
+                if recname == self.fn.get('record'):
+                    self.store[('localobj', p)] = recname
                 return
             if val[3]:
                 return
@@ -795,6 +825,13 @@ class Sim:
             nv = self.rv(self.ev(args_nodes[1]))
             self.write(self.lv_path(x), nv, n.get('line'))
             return old
+        if name == 'std::swap' and len(args_nodes) == 2:
+            xa, xb = self.ev(args_nodes[0]), self.ev(args_nodes[1])
+            pa, pb = self.lv_path(xa), self.lv_path(xb)
+            va, vb = self.rv(xa), self.rv(xb)
+            self.write(pa, vb, n.get('line'))
+            self.write(pb, va, n.get('line'))
+            return None
         if name in ('std::ref', 'std::cref') and len(args_nodes) == 1:
             # a reference wrapper is the address of its referent; binding it to a reference parameter yields the referent
             return self.addr_of(self.lv_path(self.ev(args_nodes[0])))
@@ -814,6 +851,45 @@ class Sim:
             if name == 'std::addressof':
                 return self.addr_of(self.lv_path(x))
             return x
+        if name in ('std::begin', 'std::cbegin', 'std::end', 'std::cend', 'std::data', 'std::size') and len(args_nodes) == 1:
+            # on a built-in array: its first element / one past its last element / its extent
+            a0 = args_nodes[0]
+            if a0.get('k') == 'ref' and a0['id'] in self.cur_elems:
+                a0 = self.cur_elems[a0['id']]
+            mt = re.search(r'\[(\d+)\]$', a0.get('type') or '')
+            if mt:
+                base = self.rv(self.ev(args_nodes[0]))
+                ext = int(mt.group(1))
+                if name == 'std::size':
+                    return C(ext, 64)
+                return base if name in ('std::begin', 'std::cbegin', 'std::data') else mk_op('+', base, C(ext, 64), 64)
+        if name == 'std::for_each' and len(args_nodes) == 3 and self.depth < 4:
+            # for (; first != last; ++first) f(*first): over a built-in array of known extent the calls are made one by one when the
+            # engine unrolls; otherwise one call on a general element stands for the iterations
+            b = self.rv(self.ev(args_nodes[0]))
+            e_ = self.rv(self.ev(args_nodes[1]))
+            fv = self.rv(self.ev(args_nodes[2]))
+            target, this_ptr = None, None
+            if isinstance(fv, tuple) and fv and fv[0] == 'lambda':
+                target = self.facts.functions.get(fv[1])
+            else:
+                fun = self.functor_call_op(fv)
+                if fun is not None:
+                    target, this_ptr = self.facts.functions.get(fun[0]), fun[1]
+            ext = None
+            if isinstance(e_, tuple) and e_ and e_[0] == 'op' and e_[1] == '+' and e_[2] == b and is_const(e_[3]):
+                ext = e_[3][1]
+            if target is not None and target.get('blocks') and len(target['params']) == 1 and ext is not None:
+                if self.eng.unroll and ext <= 8:
+                    for i in range(ext):
+                        ptr = b if i == 0 else mk_op('+', b, C(i, 64), 64)
+                        self.inline_call(target, [('lv', ('deref', ptr), None)], n, this_ptr=this_ptr)
+                else:
+                    ptr = self.new_sym('each~')
+                    self.assume(('op', '!=', ptr, e_, 64), True, n.get('line'))
+                    self.event({'kind': 'for_each', 'first': b, 'last': e_, 'element': ptr, 'line': n.get('line')})
+                    self.inline_call(target, [('lv', ('deref', ptr), None)], n, this_ptr=this_ptr)
+                return fv
         callee = n.get('callee', '?')
         fn = self.facts.functions.get(callee)
         if fn is not None and self.eng.is_spin_function(fn) and args_nodes:
@@ -1082,15 +1158,23 @@ class Sim:
 
     def _functor_via_ctor(self, op, ctor, items, ptr):
         for prm, a in zip(ctor['params'], items):
+            if prm.get('isref') and isinstance(a, tuple) and a and a[0] == 'lv':
+                a = self.addr_of(a[1])          # a reference parameter bound to an object: its address
             self.store[('var', prm['did'], prm['name'])] = a
         saved = self.this_val
         self.this_val = ptr
         self.depth += 1
+        n0 = len(self.path.events)
         try:
             self.run_body(ctor)
         finally:
             self.depth -= 1
             self.this_val = saved
+        # member initialisations of that object are not initialisations of *this
+        for ev_ in self.path.events[n0:]:
+            if ev_['kind'] == 'init':
+                ev_['kind'] = 'init_local'
+                ev_['on_local'] = show(ptr)
         return op['key'], ptr
 
     def inline_spin(self, lam_key, args, call_node, this_ptr=None):
@@ -1257,13 +1341,16 @@ class Sim:
             if bid in headers:
                 self.event({'kind': 'loop_head', 'header': bid, 'visit': visits[bid], 'line': None,
                             'locals': {k[2]: v for k, v in self.store.items() if isinstance(k, tuple) and k and k[0] == 'var'}})
+            after_return = False
             for e in b['elems']:
                 k = e['kind']
+                if after_return and k != 'auto_dtor':
+                    continue       # after `return x;` only the destructors of the locals still run
                 if k == 'stmt':
                     v = self.ev(e['e'])
                     self.vals[e['id']] = v
                     if self.returned:
-                        break
+                        after_return = True
                 elif k == 'init' and 'member' not in e and 'base' not in e and self.delegate_target(e, fn) is not None and self.depth < 4:
                     # delegating constructor: the target constructor initialises this object
                     cn = self.delegate_target(e, fn)
@@ -1285,6 +1372,15 @@ class Sim:
                     self.event({'kind': k, 'member': e.get('member'), 'var': e.get('var'), 'did': e.get('did'),
                                 'type': e.get('type'),
                                 'line': int(e['loc'].rsplit(':', 1)[1]) if e.get('loc') else None})
+                    if k == 'auto_dtor' and e.get('did') is not None:
+                        lp = ('var', e['did'], e.get('var'))
+                        rec_l = self.store.get(('localobj', lp))
+                        if rec_l:
+                            dt = next((g for g in self.facts.functions.values() if g.get('record') == rec_l and g['kind'] == 'dtor' and g.get('blocks')), None)
+                            if dt is not None and self.depth < 3:
+                                n0_ = len(self.path.events)
+                                self.inline_call(dt, [], {'line': int(e['loc'].rsplit(':', 1)[1]) if e.get('loc') else None}, this_ptr=('addr', lp))
+                                self.mark_local(n0_, lp)
             if self.returned:
                 break
             succs = b['succs']
